@@ -11,6 +11,7 @@ import (
 	_ "verif/props/c07"
 	_ "verif/props/c09"
 	_ "verif/props/c10"
+	_ "verif/props/c11"
 	_ "verif/props/c12"
 	_ "verif/props/c15"
 	_ "verif/props/c16"
